@@ -103,6 +103,9 @@ fn generate(rng: &mut Rng, index: u64) -> ConnScenario {
             menu.push((fi, 8, k)); // raw over-long length prefix, then the client keeps streaming
         }
         menu.push((fi, 4, 0)); // bit flip on the wire
+        for k in 0..3 {
+            menu.push((fi, 9, k)); // a really over-long frame (content padded), delivered whole in one segment
+        }
     }
     for v in 0..16 {
         menu.push((0, 5, v)); // Encryption Response variants
@@ -159,6 +162,10 @@ fn generate(rng: &mut Rng, index: u64) -> ConnScenario {
             sc.client.mutations.push(Mutation { frame: fi, op: MutOp::Append { bytes: rng.bytes(flood) } });
             sc.client.cuts.push(Cut { at: f.start + 5, gate: Gate::Delay { ns: secs(10) }, spurious: 0 });
         }
+        9 => {
+            let total = max as usize + [1usize, 2, 40][par as usize % 3];
+            sc.client.mutations.push(Mutation { frame: fi, op: MutOp::PadTo { total } });
+        }
         6 => {
             for _ in 0..par {
                 sc.wplan.push(crate::pipe::WRule::Accept { max: 1_000_000 });
@@ -190,7 +197,7 @@ fn generate(rng: &mut Rng, index: u64) -> ConnScenario {
         }
     }
     // random segmentation on top (never inside the frame whose prefix delivery is being timed)
-    if class != 0 && rng.chance(1, 3) {
+    if class != 0 && class != 9 && rng.chance(1, 3) {
         for _ in 0..rng.range(1, 4) {
             let g = rng.pick(&frames).clone();
             sc.client.cuts.push(Cut { at: rng.range(g.start, g.end - 1), gate: if rng.chance(1, 2) { Gate::Now } else { Gate::Delay { ns: ms(1) } }, spurious: rng.below(3) as u8 });
@@ -258,6 +265,17 @@ pub fn check(sc: &ConnScenario, out: &ConnOutcome, rep: &mut RunReport) {
                 }
                 if out.result == "Ok" {
                     rep.violate("malformed_input_is_an_error", "over-long length prefix but listen() returned Ok".into());
+                }
+            }
+            MutOp::PadTo { total } if *total > max => {
+                // an over-long frame that is completely there in one piece is refused all the same
+                let t_frame = PipeState::avail_at(&out.pipe.avail, f.end).unwrap_or(u64::MAX);
+                match out.done_ns {
+                    Some(d) if d <= t_frame => {}
+                    other => rep.violate("frame_over_max_refused_when_delivered_whole", format!("frame #{} of {total} bytes (max {max}) available in one piece at {t_frame} ns, handler returned {:?} ({})", m.frame, other, out.result)),
+                }
+                if out.result == "Ok" {
+                    rep.violate("malformed_input_is_an_error", format!("frame of {total} bytes (max {max}) but listen() returned Ok"));
                 }
             }
             MutOp::Truncate { keep } if (*keep as u64) < f.end - f.start + 0 && sc.client.close_after.is_some() => {
@@ -333,6 +351,7 @@ impl Check for C04 {
                 MutOp::Patch { .. } | MutOp::Splice { .. } => "mut_splice_inner",
                 MutOp::Append { .. } => "mut_append_junk",
                 MutOp::WireFlip { .. } => "mut_wire_bit_flip",
+                MutOp::PadTo { .. } => "mut_overlong_frame_delivered_whole",
             };
             *rep.faults.entry(name.into()).or_insert(0) += 1;
         }
